@@ -1191,6 +1191,22 @@ impl<'a, E: Engine> Replayer<'a, E> {
             }
         }
 
+        // C20: == is structural equality, in both directions: two replicas whose (canonical) private states differ
+        // never compare equal
+        for q in 0..d.n {
+            if !misuse && q + 1 != who {
+                let other = &sys.st[q];
+                let anyout = mv(&ob["dupair"], q) == Some(json!(true)) || mv(&ob["dupair"], who - 1) == Some(json!(true));
+                if anyout || E::proj(other, &d) == base_proj {
+                    continue;
+                }
+                match catch(|| E::eq(s, other) || E::eq(other, s)) {
+                    Ok(b) => self.judge(&["C20"], "eq.sound", json!(b), json!(false), None, h, pend_now, json!({"other": q + 1})),
+                    Err(_) => self.judge(&["C20"], "eq.panic", json!("PANIC"), json!(false), None, h, pend_now, json!({"other": q + 1})),
+                }
+            }
+        }
+
         // C02: merge laws on all triples of jointly reachable states
         if self.opts.laws && !misuse {
             let mut pool: Vec<&E::S> = sys.st.iter().collect();
